@@ -129,6 +129,8 @@ def gen_config(rng):
             # names: there the parameters fall back to their defaults -- nothing of the first parent may reach them
             cfgd['parent2'] = {'resources': [r for r in cfgd['parent']['resources'] if rng.random() < 0.35],
                                'prefix': rng.choice(['/two', '/up'])}
+        # another application embedded in the same parent BEFORE this one, with resources of the same names (its own objects)
+        cfgd['parent']['sibling'] = rng.random() < 0.5
     cfgd['replace_after'] = rng.random() < 0.4
     cfgd['ep_value'] = rng.choice(['dict', 'dict', 'emptydict', 'emptylist'])
     if not cfgd.get('parent') and rng.random() < 0.3:
@@ -271,7 +273,12 @@ def build(cfg, tag):
     if cfg.get('parent'):
         inner, inner_res, inner_pattern = app, dict(allres), pattern
         pres = dict((r, Res(r, tag + '-parent')) for r in cfg['parent']['resources'])
-        app = Application([(cfg['parent']['prefix'], inner)], resources=pres)
+        siblings = []
+        if cfg['parent'].get('sibling'):
+            sib = Application([('/hello', lambda: Response('sibling'))],
+                              resources=dict((r, Res(r, tag + '-sibling')) for r in list(cfg['resources']) + list(cfg['parent']['resources'])))
+            siblings.append(('/sibling', sib))
+        app = Application(siblings + [(cfg['parent']['prefix'], inner)], resources=pres)
         allres.update(pres)
         pattern = cfg['parent']['prefix'] + inner_pattern
         if cfg.get('parent2'):
@@ -432,7 +439,7 @@ class C02(Check):
                   'independent resolver as oracle. The configuration space is a sampled input space; what simulation adds '
                   'is the history, interleaving and hash-seed dimensions the property names.')
     level_note = 'Trusted: the resolver (~40 lines from the property text), generator validity rules V1-V3.'
-    required_probes = ('embedded-in-parent-offering-more-names', 'decoy-route-binding-named-like-resource', 'positional-next-multi', 'render-error-injected', 'optional-got-offered-value', 'kwonly-got-offered-value', 'null-route-defaults', 'concurrent-batch',
+    required_probes = ('two-applications-constructed-at-the-same-time', 'embedded-in-parent-offering-more-names', 'decoy-route-binding-named-like-resource', 'positional-next-multi', 'render-error-injected', 'optional-got-offered-value', 'kwonly-got-offered-value', 'null-route-defaults', 'concurrent-batch',
                        'kind-lambda', 'kind-callable', 'kind-classmethod', 'kind-decorated', 'multi-url-value',
                        'falsy-render-context', 'bare-route-with-catch-all-endpoint', 'kind-varkw', 'callers-dict-changed-after-construction', 'behind-prefix-stripping-wrapper', 'url-list-value-mutated-after-request', 'same-url-as-previous-request-while-another-is-served', 'same-application-embedded-in-second-parent', 'name-spelled-like-generated-code-identifier', 'default-for-name-provided-elsewhere', 'optional-url-binding-absent', 'optional-url-binding-zero', 'optional-url-binding-present', 'url-value-zero', 'multi-url-binding-empty')
 
@@ -460,7 +467,12 @@ class C02(Check):
                 pre = sorted([sch.randint(1, hi), sch.choice(['demote'] + names)] for _ in range(sch.randint(1, 6)))
                 op.update({'granularity': gran, 'order': order, 'preempts': pre})
             ops.append(op)
-        return {'world': 'chain', 'seed': seed, 'config': cfg, 'ops': ops}
+        plan = {'world': 'chain', 'seed': seed, 'config': cfg, 'ops': ops}
+        if sch.random() < 0.2:
+            # the program builds two applications at the same time (lazy application factories, one per worker thread): this
+            # one is parked at some line of its construction while the other one is constructed completely
+            plan['conc_build'] = {'other': gen_config(S['other']), 'preempts': [[sch.choice([sch.randint(1, 300), sch.randint(1, 3000), sch.randint(1, 12000)]), 'T1']]}
+        return plan
 
     def extra_plans(self, tier, base_seed):
         """Structured part: a client polls one URL (request #1, then #2 with the same URL) while another client's request
@@ -504,7 +516,20 @@ class C02(Check):
         cfg = plan['config']
         K = 'C02/'
         try:
-            hosts = build(cfg, 'A')
+            cb = plan.get('conc_build')
+            if cb:
+                built = {}
+                sched0 = BatonScheduler(['T0', 'T1'], cb['preempts'], 'line', WATCH, max_steps=400000)
+                sched0.run({'T0': lambda: built.__setitem__('main', build(cfg, 'A')), 'T1': lambda: built.__setitem__('other', build(cb['other'], 'B'))})
+                res.fire('preempt', len(sched0.switches))
+                if sched0.switches:
+                    res.probe('two-applications-constructed-at-the-same-time')
+                for name in ('T0', 'T1'):
+                    if name in sched0.errors:
+                        raise sched0.errors[name]
+                hosts = built['main']
+            else:
+                hosts = build(cfg, 'A')
             app, resources, pattern = hosts[1]
         except Exception as e:
             res.violate(K + 'setup-failed:%s' % type(e).__name__,
